@@ -7,6 +7,7 @@ import srctie, common
 from concurrent.futures import ThreadPoolExecutor
 def sh(c): return subprocess.run(c, shell=True, capture_output=True, text=True)
 def one(diff):
+    diff = os.path.abspath(diff)
     tag = str(abs(hash(diff)) % 10**8)
     wt = "/tmp/srctie_%s_%d" % (tag, os.getpid())
     sh("git -C /repo worktree add --detach %s HEAD" % wt)
